@@ -199,7 +199,9 @@ def generate(rng, max_ops=200, live_limit=256 * 1024, profile=None):
     drawn per script."""
     nslots = rng.choice([2, 4, 8, 16, 32])
     nops = rng.randint(5, max_ops)
-    profile = profile or rng.choice(["mixed", "mixed", "links", "arrays", "churn", "deep", "interior"])
+    profile = profile or rng.choice(["mixed", "mixed", "links", "arrays", "churn", "deep", "interior", "oldwrite", "oldwrite"])
+    if profile == "oldwrite":
+        return generate_oldwrite(rng), profile
     weights = {
         "mixed": dict(NEW=10, LINK=10, UNLINK=3, DROP=4, ARR=3, ARRSET=6, CHURN=4, SUM=6, GCFULL=1, GCMINOR=2, STR=2, DEEP=2, PAIRS=2, CLOSURE=2, GLOBAL=2, SUMALL=2),
         "links": dict(NEW=12, LINK=20, UNLINK=6, DROP=5, SUM=6, GCMINOR=2, GCFULL=1, SUMALL=2, CHURN=3),
@@ -257,6 +259,45 @@ def generate(rng, max_ops=200, live_limit=256 * 1024, profile=None):
                 w.step(OPS["GLOBAL"], 2, 0, 0)
     script += [OPS["SUMALL"], 0, 0, 0, OPS["GLOBAL"], 1, 0, 0]
     return script, profile
+
+
+def generate_oldwrite(rng):
+    """Stores into objects that survived a full collection while the concurrent sweeper may
+    still be running: survivors get children that are reachable only through them, then
+    further collections recycle whatever was freed by mistake."""
+    nh = rng.choice([4, 8, 16, 32])
+    nslots = 3 * nh
+    ops = []
+    for i in range(nh):
+        ops.append(("NEW", i, rng.choice([0, 2, 3, 8]), 0))
+    for rnd in range(rng.randint(1, 3)):
+        ops.append((rng.choice(["GCFULL", "GCFULL", "GCMINOR"]), 0, 0, 0))
+        order = list(range(nh))
+        rng.shuffle(order)
+        for i in order[:rng.randint(1, nh)]:
+            c = nh + i
+            ops.append(("NEW", c, rng.choice([0, 3, 3, 16]), 0))
+            kind = rng.random()
+            if kind < 0.6:
+                ops.append(("LINK", i, c, rng.randrange(2)))
+            elif kind < 0.8:
+                ops.append(("ARR", i, rng.choice([1, 4]), 0))
+                ops.append(("ARRSET", i, 0, c))
+            else:
+                ops.append(("PAIRS", i, 2, c))
+            ops.append(("DROP", c, 0, 0))
+        ops.append(("GCFULL", 0, 0, 0))
+        for r in range(rng.randint(1, 3)):
+            for k in range(2 * nh, 3 * nh):
+                ops.append(("NEW", k, rng.choice([0, 3, 3, 16]), 0))
+            for _ in range(rng.randint(1, 3)):
+                ops.append(("GCMINOR", 0, 0, 0))
+        ops.append(("SUMALL", 0, 0, 0))
+    script = [nslots]
+    for (name, x, y, z) in ops:
+        script += [OPS[name], x, y, z]
+    script += [OPS["SUMALL"], 0, 0, 0, OPS["GLOBAL"], 1, 0, 0]
+    return script
 
 
 if __name__ == "__main__":
